@@ -4,9 +4,12 @@ import (
 	"context"
 	"io"
 	"net"
+	"sync"
 )
 
 // C13(a) — reference counting of handles handed out for one ufrag.
+func init() { verifRegister("verifC13AbortInterleaved", verifC13AbortInterleaved) }
+
 func verifC13Refcount() {
 	m, sock := verifNewMux()
 	verifRunGoroutines()
@@ -157,5 +160,41 @@ func verifC13AbortProtocol() {
 	verifRunUntilBlocked(func() { entered = m.startWriteContext(context.Background()) == nil })
 	verifSettle()
 	verifAssert(entered, "later-writes-by-any-user-enter")
+	verifReach("done")
+}
+
+// C13(b') — the write-abort protocol under interleavings: a context-bound
+// write blocked in the socket, a concurrent plain write by another user and the
+// cancellation of the first one's context, explored over schedules. Whatever
+// the interleaving: everybody returns, the state word is back to 0, the last
+// deadline set on the shared socket is "none", and later writes succeed.
+func verifC13AbortInterleaved() {
+	m, sock := verifNewMux()
+	sock.blockTag = 0xB1
+	peer := verifMuxAddrs[0]
+	ctx, cancel := context.WithCancel(context.Background())
+	defer cancel()
+	var wg sync.WaitGroup
+	var err1, err2 error
+	wg.Add(3)
+	go func() { defer wg.Done(); _, err1 = m.writeToContext(ctx, []byte{0xB1, 1}, peer) }()
+	go func() { defer wg.Done(); _, err2 = m.writeTo([]byte{0x02, 2}, peer) }()
+	go func() { defer wg.Done(); cancel() }()
+	wg.Wait()
+
+	verifAssert(err1 != nil, "the-cancelled-blocked-write-returns-an-error")
+	_ = err2
+	verifAssert(m.writeState.Load() == 0, "after-all-writes-returned-the-state-word-is-0")
+	sock.mu.Lock()
+	n := len(sock.deadlines)
+	lastZero := n == 0 || sock.deadlines[n-1].IsZero()
+	sock.mu.Unlock()
+	verifAssert(lastZero, "the-write-deadline-on-the-shared-socket-is-cleared")
+	if n > 0 {
+		verifReach("deadline-was-armed")
+	}
+	sock.blockTag = 0
+	_, err3 := m.writeTo([]byte{0x03}, peer)
+	verifAssert(err3 == nil, "later-writes-by-any-user-succeed")
 	verifReach("done")
 }
